@@ -89,17 +89,29 @@ def oracle(out, rpos, qpos, qlen, shift, start, end, rev, d):
         if a.query.position == b.query.position and a.reference.position != b.reference.position and \
                 ((a.query.siteId > b.query.siteId) != rev):
             return 'pairs-cross', 'pairs on coincident query labels are numbered against the strand direction'
-    for rs, rp in rlab:
-        for qs_, qp in qlab:
-            dist = abs(qp - (rp - start))
-            if dist > d - EPS:
+    # mutual strict nearest partners (with margin EPS) must be paired; O((n+m) log) via bisect on the ascending coordinates
+    import bisect
+    pairset = {(p.reference.siteId, p.query.siteId) for p in pairs}
+    qx = [qp for _, qp in qlab]
+    rx = [rp - start for _, rp in rlab]
+
+    def nearest(xs, x):
+        """index of the nearest element of ascending xs to x, its distance, and the distance of the runner-up"""
+        i = bisect.bisect_left(xs, x)
+        cand = sorted((abs(xs[j] - x), j) for j in range(max(0, i - 2), min(len(xs), i + 2)))
+        if not cand:
+            return None, None, None
+        return cand[0][1], cand[0][0], (cand[1][0] if len(cand) > 1 else float('inf'))
+    if qx == sorted(qx) and rx == sorted(rx):
+        for ri, (rs, rp) in enumerate(rlab):
+            qi, dist, second = nearest(qx, rp - start)
+            if qi is None or dist > d - EPS or second <= dist + EPS:
                 continue
-            # "strictly nearest" with a margin: far along a chromosome the float subtraction rounds at 1e-8, so distances
-            # that are equal on paper may differ in the last bits - such near-ties decide nothing
-            if all(abs(qp2 - (rp - start)) > dist + EPS for q2, qp2 in qlab if q2 != qs_) and \
-                    all(abs(qp - (rp2 - start)) > dist + EPS for r2, rp2 in rlab if r2 != rs):
-                if not any(p.reference.siteId == rs and p.query.siteId == qs_ for p in pairs):
-                    return 'mutual-nearest-unpaired', 'reference label %s and query label %s are strictly each other\'s nearest within d but not paired' % (rs, qs_)
+            ri2, dist2, second2 = nearest(rx, qx[qi])
+            if ri2 != ri or second2 <= dist2 + EPS:
+                continue
+            if (rs, qlab[qi][0]) not in pairset:
+                return 'mutual-nearest-unpaired', 'reference label %s and query label %s are strictly each other\'s nearest within d but not paired' % (rs, qlab[qi][0])
     return None
 
 
